@@ -116,6 +116,13 @@ class Unit:
                                 from .values import VList as _VL, VDict as _VD
                                 bad.append("%s.%s" % (o.cls[1] if isinstance(o.cls, tuple) else o.cls, k))
                     bad += list(st.ghost.get("illegal_writes", []))
+                    from .interp import _flat_items
+                    for (mn, nm), (cont, snap) in st.ghost.get("module_snapshot", {}).items():
+                        now = _flat_items(cont)
+                        if "module:" + nm in self.writes:
+                            continue
+                        if len(now) != len(snap) or any(a is not b for a, b in zip(now, snap)):
+                            bad.append("module state %s.%s" % (mn.split(".")[-1], nm))
                     st.oblige("frame.auto: writes nothing outside its frame %s" % (sorted(self.writes) or "[]"),
                               _z3.BoolVal(not bad), kind="frame", info={"written": sorted(set(bad))}, assume_after=False)
                 for ob in st.obligations[n0:]:
